@@ -46,7 +46,7 @@ def one_case(job):
         from vc2_conformance import file_format
         shutil.rmtree(d, ignore_errors=True)
         os.makedirs(d)
-        desc, data, pics = common.encoder_stream(rng)
+        desc, data, pics = common.encoder_stream(rng) if rng.random() < 0.78 else common.deep_lossless_stream(rng)
         kind = "conformant"
         r0 = rng.random()
         if r0 < 0.12:
